@@ -15,7 +15,7 @@ Variable decompress : list byte -> option (list byte).
 
 Definition geometry_ok : Prop := 7 < B /\ (N.of_nat B <= 65542)%N /\ (forall t d, length (crc t d) = 4).
 
-Let sessions' := sessions B crc compress false.
+Let sessions' := sessions B crc compress decompress false.
 Let read' := read_all B crc decompress.
 Let records' := records B crc decompress.
 
@@ -66,13 +66,12 @@ Definition recover_file (t : list byte) : list byte :=
   end.
 
 (* S5: records appended after opening a segment are read back at the next open — for every
-   segment the writer produced, cut anywhere, OUTSIDE the known class known_unparsed_tail *)
+   segment the writer produced, cut at ANY byte (the writer drops a torn tail before appending) *)
 Definition wal_append_after_recovery_stmt : Prop :=
   geometry_ok ->
   forall (ss : list (list (list byte))) (f : list byte) (n : nat) (new : list (list byte)),
     sessions' [] ss = Some f ->
-    known_unparsed_tail B crc decompress (firstn n f) = false ->
-    exists g, session B crc compress false (recover_file (firstn n f)) new = Some g /\
+    exists g, session B crc compress decompress false (recover_file (firstn n f)) new = Some g /\
               records' g = records' (firstn n f) ++ filter nonempty new /\
               snd (read' g) = Eof.
 
